@@ -523,8 +523,8 @@ def run (j : Json) : Except String Json := do
   let tape ← getList getDraw (← fld j "tape")
   let nodes := List.range n
   let nbrs := listFn adj []
-  let rate := ComplexFam.rateOf fam nodes nbrs tau gamma k
-  let infl : (Node → St) → Node → List Node := fun _ u => ComplexFam.inflOf fam nodes nbrs u
+  let rate := ComplexFam.rateOf2 fam nodes nbrs tau gamma k
+  let infl : (Node → St) → Node → List Node := fun st u => ComplexFam.inflOf2 fam nodes nbrs st u
   let P : CCParams St := ⟨nodes, rate, ComplexFam.chooseOf fam, infl, ret.map getSt⟩
   match (Complex.run P (fun u => getSt (ic.getD u "S")) tmin tmax 100000 1000) { tape := tape } with
   | .error e => pure (errObj e)
@@ -672,6 +672,40 @@ def run (j : Json) : Except String Json := do
   pure (Json.mkObj [("ok", Json.bool true), ("dy", jArr jRat res)])
 end DrvODE
 
+/-! ### fast_SIS (C02) -/
+namespace DrvFS
+open FastSIS
+def run (j : Json) : Except String Json := do
+  let n ← getNat (← fld j "n")
+  let adj ← getList (getList getNat) (← fld j "adj")
+  let tau ← getRat (← fld j "tau")
+  let gamma ← getRat (← fld j "gamma")
+  let tmin ← getRat (← fld j "tmin")
+  let tmax ← getRat (← fld j "tmax")
+  let infs ← getList getNat (← fld j "infs")
+  let tape ← getList getDraw (← fld j "tape")
+  let ew ← match fldOpt j "ew" with
+    | none => pure (fun (_ _ : Node) => (1 : Rat))
+    | some e => do
+      let l ← getList (fun t => do
+        match ← getArr t with
+        | [u, v, w] => pure ((← getNat u), (← getNat v), (← getRat w))
+        | _ => .error "bad ew") e
+      pure (DrvG.pairTable l)
+  let nw ← match fldOpt j "nw" with
+    | none => pure (fun (_ : Node) => (1 : Rat))
+    | some e => do
+      let l ← getList getRat e
+      pure (listFn l 0)
+  let P : FSParams := ⟨List.range n, listFn adj [], fun u v => tau * ew u v, fun u => gamma * nw u, tmin, tmax⟩
+  match (FastSIS.run P infs 200000) { tape := tape } with
+  | .error e => pure (errObj e)
+  | .ok (s, ts) =>
+    pure (Json.mkObj [("ok", Json.bool true), ("trace", Json.arr (ts.trace.map jCall)), ("unused", jNat ts.tape.length),
+      ("log", jArr (fun c => Json.arr #[jRat c.1, jNat c.2.1, Json.bool c.2.2]) s.log.reverse),
+      ("trans", jArr DrvES.jTrans s.trans.reverse)])
+end DrvFS
+
 def dispatch (j : Json) : Except String Json := do
   let op ← getStr (← fld j "op")
   match op with
@@ -693,6 +727,7 @@ def dispatch (j : Json) : Except String Json := do
   | "perc" => DrvPerc.run j
   | "ode_ic" => DrvIC.run j
   | "rhs" => DrvODE.run j
+  | "fastsis" => DrvFS.run j
   | "simple_rates" => DrvSC.rates j
   | "reedfrost" => DrvD.reedfrost j
   | _ => .error s!"unknown op {op}"
